@@ -169,6 +169,8 @@ class Sim:
             from .wire import WireObserver
 
             self.wire = WireObserver(self)
+            if cfg.get("c_keylog"):
+                self.wire.add_keylog(self.c_keylog)
 
     # ------------------------------------------------------------------ helpers
     def push(self, t, kind, *a):
@@ -261,7 +263,7 @@ class Sim:
             self.dropped_datagrams.append((x, now))
         src = self.ep[x].addr
         for _, delay in fates:
-            self.push(now + delay, "rx", peer, data, src)
+            self.push(now + delay, "rx", peer, data, src, addr)
 
     # ------------------------------------------------------------------ server front door
     def server_receive(self, data, src, now):
@@ -396,6 +398,11 @@ class Sim:
                 m.on_api(self, x, "change_cid", {})
             self.stats["op:change_cid"] += 1
         elif kind == "rebind":
+            # RFC 9000 section 9: QUIC relies on endpoints retaining a stable address for the duration of the
+            # handshake, so the client address only changes once the handshake is confirmed
+            if x == "c" and not getattr(c, "_handshake_confirmed", ep.handshake_complete):
+                self.stats["op-skipped"] += 1
+                return
             if x == "c":
                 ep.addr = CLIENT_ADDR2 if ep.addr == CLIENT_ADDR else CLIENT_ADDR
                 for m in self.monitors:
@@ -423,6 +430,22 @@ class Sim:
 
     # ------------------------------------------------------------------ main loop
     def run(self):
+        try:
+            return self._run()
+        except SimStop:
+            return self
+        except Exception as e:
+            from .harness import Violation, exc_signature
+
+            if isinstance(e, Violation):
+                raise
+            sig = exc_signature(e)
+            if "-in-?" in sig:
+                raise  # not inside aioquic: a harness error
+            self.ctx.violation("api-raised-" + sig, "a QuicConnection API call raised %r at t=%.4f under a network that only drops/delays/duplicates datagrams" % (e, self.now), self.case)
+            return self
+
+    def _run(self):
         with E.pinned(self.seed()):
             self.build()
             for m in self.monitors:
@@ -456,8 +479,13 @@ class Sim:
             if now > self.max_time:
                 break
             if kind == "rx":
-                x, data, src = a
+                x, data, src = a[:3]
                 ep = self.ep[x]
+                if len(a) > 3 and x == "c" and a[3] != ep.addr and now < self.adv_end:
+                    # sent to an address the client no longer has (NAT rebinding): nobody is there.
+                    # (In the fair phase the network delivers: both mappings are alive.)
+                    self.stats["lost-to-stale-address"] += 1
+                    continue
                 if x == "s" and ep.conn is None:
                     if not self.server_receive(data, src, now):
                         continue
